@@ -290,6 +290,11 @@ func (r *Run) onEvent(gid int64, kind string, a, b uint64, key, val []byte) {
 		if bad != 0 {
 			r.violate([]string{"C34"}, "watermark-advanced-past-pending", "watermark %s advanced from %d to %d while index %d was begun and never done", key, a, b, bad)
 		}
+	case "compact.sub":
+		r.logf("compaction %s", key)
+	case "compact.dropMarker":
+		r.probe("tombstone_dropped")
+		r.logf("compaction dropped delete/expired marker %q@%d", key, a)
 	case "compact.discardTs":
 		r.mu.Lock()
 		if a > r.maxDiscardTs {
